@@ -32,6 +32,9 @@ pub enum AtomicOp {
     FetchXor,
     FetchAdd,
     FetchSub,
+    FetchNand,
+    FetchMax,
+    FetchMin,
     CompareExchange,
 }
 
@@ -166,6 +169,24 @@ impl AtomicU64 {
     atomic_rmw!(fetch_xor, FetchXor);
     atomic_rmw!(fetch_add, FetchAdd);
     atomic_rmw!(fetch_sub, FetchSub);
+    atomic_rmw!(fetch_nand, FetchNand);
+    atomic_rmw!(fetch_max, FetchMax);
+    atomic_rmw!(fetch_min, FetchMin);
+
+    /// `fetch_update` as a load followed by compare-exchange attempts, each reported.
+    pub fn fetch_update<F>(&self, set_order: Ordering, fetch_order: Ordering, mut f: F) -> Result<u64, u64>
+    where
+        F: FnMut(u64) -> Option<u64>,
+    {
+        let mut prev = self.load(fetch_order);
+        while let Some(next) = f(prev) {
+            match self.compare_exchange(prev, next, set_order, fetch_order) {
+                Ok(x) => return Ok(x),
+                Err(actual) => prev = actual,
+            }
+        }
+        Err(prev)
+    }
 
     #[inline]
     pub fn compare_exchange(
@@ -237,6 +258,18 @@ impl<T> Mutex<T> {
                 inner: Some(e.into_inner()),
             })),
         }
+    }
+
+    pub fn is_poisoned(&self) -> bool {
+        self.0.is_poisoned()
+    }
+
+    pub fn get_mut(&mut self) -> LockResult<&mut T> {
+        self.0.get_mut()
+    }
+
+    pub fn into_inner(self) -> LockResult<T> {
+        self.0.into_inner()
     }
 
     pub fn try_lock(&self) -> TryLockResult<MutexGuard<'_, T>> {
@@ -323,6 +356,24 @@ impl<T> ArcSwap<T> {
     pub fn swap(&self, val: Arc<T>) -> Arc<T> {
         emit(Event::SwapStore { obj: self.obj() });
         self.0.swap(val)
+    }
+
+    /// Read-copy-update as a load followed by compare-and-swap attempts, each reported.
+    pub fn rcu<R, F>(&self, mut f: F) -> Arc<T>
+    where
+        F: FnMut(&Arc<T>) -> R,
+        R: Into<Arc<T>>,
+    {
+        let mut cur = self.load_full();
+        loop {
+            let new: Arc<T> = f(&cur).into();
+            emit(Event::SwapStore { obj: self.obj() });
+            let prev = self.0.compare_and_swap(&cur, new);
+            if Arc::ptr_eq(&prev, &cur) {
+                return cur;
+            }
+            cur = Arc::clone(&prev);
+        }
     }
 
     pub fn into_inner(self) -> Arc<T> {
